@@ -19,7 +19,9 @@ RULE = ("convexhull_mask: (1) integer-lattice clouds of 3..15 points (collinear 
         "(2) random float clouds queried at random points and at points rounded onto hull edges (those closer to the hull boundary than "
         "2^-30 x extent_x x extent_y in orientation units may go either way and are not compared); (3) the same lattice cloud under exact "
         "dyadic/decimal scalings and offsets up to 1e7 per axis (x and y scaled differently), the model being evaluated on the BASE "
-        "coordinates; (4) array form vs grid form (xarray.Dataset, dims northing/easting or custom) on non-square grids. "
+        "coordinates; (4) array form vs grid form (xarray.Dataset, dims northing/easting or custom) on non-square grids whose coordinate vectors "
+        "are ascending, descending, unevenly spaced or both, with the data hull confined to an off-centre part of the grid, also after exact "
+        "rescaling of cloud and grid to offsets up to 2^30 / 1e7; project_grid input grids use the same axis styles. "
         "project_grid: 5x6..8x9 grids with 0..4 NaN holes (incl. corners), names foo/None/custom, projections axis-aligned affine (dyadic "
         "coefficients, incl. negative scales and offsets up to 1e6), separable monotone cubic and Mercator-like, non-separable quadratic and "
         "rotation; methods linear/nearest/cubic x antialias on/off x arguments none/shape/spacing/region(+shape|spacing); the projection "
@@ -262,7 +264,7 @@ class AffineFactory:
 
     def make(self, east, north):
         rnd = self.rnd
-        de, dn = east[1] - east[0], north[1] - north[0]
+        de, dn = np.abs(np.diff(east)).min(), np.abs(np.diff(north)).min()
         for attempt in range(200):
             sx = rnd.choice([0.5, 1.0, 2.0, 4.0, 1000.0, -2.0])
             sy = rnd.choice([0.5, 1.0, 2.0, 0.25, 1000.0, -1.0])
@@ -284,14 +286,30 @@ NONLINEAR = {
 METHODS = {"linear": 0, "nearest": 1, "cubic": 2}
 
 
+AXIS_STYLES = ["ascending", "descending", "uneven", "uneven-descending"]
+
+
+def styled_axis(rnd, start, step, n, style):
+    """a coordinate vector on the lattice step/4: evenly spaced ascending (what grid_coordinates makes), descending
+    (the usual raster orientation of northing), unevenly spaced, or both; all values distinct"""
+    if style.startswith("uneven"):
+        gaps = [rnd.choice([1, 2, 3, 6]) for _ in range(n - 1)]
+        if len(set(gaps)) == 1 and n > 2:
+            gaps[0] = gaps[0] + 3
+        ax = start + (step / 2) * np.concatenate([[0.0], np.cumsum(gaps)])
+    else:
+        ax = start + step * np.arange(n)
+    return ax[::-1].copy() if style.endswith("descending") else ax
+
+
 def make_grid(rnd, nprng, ny, nx, name, dims, holes, smooth):
     import xarray as xr
     e0 = rnd.choice([0.0, -2.5, 1.0, 3.25])
     n0 = rnd.choice([0.0, 1.0, -4.0, 0.5])
     de = rnd.choice([0.5, 1.0, 0.25, 0.75])
     dn = rnd.choice([0.5, 1.0, 0.25, 1.5])
-    east = e0 + de * np.arange(nx)
-    north = n0 + dn * np.arange(ny)
+    east = styled_axis(rnd, e0, de, nx, rnd.choice(["ascending"] * 5 + AXIS_STYLES[1:]))
+    north = styled_axis(rnd, n0, dn, ny, rnd.choice(["ascending"] * 3 + ["descending"] * 3 + AXIS_STYLES[2:]))
     if smooth:
         E, N = np.meshgrid(east, north)
         v = 3.0 + np.sin(E / 2) * np.cos(N / 3) + 0.1 * E
@@ -384,7 +402,7 @@ def pg_cases(vd, rnd, nprng, proj, separable, method, antialias, argkind, kind, 
     if fixed is not None:
         # split the observation: everything but value reproduction must be fine; reproduction alone carries the finding key
         ratio = float(max(np.abs(pe).max(), np.abs(pn).max()) /
-                      min(abs(aff[0]) * (east[1] - east[0]), abs(aff[2]) * (north[1] - north[0])))
+                      min(abs(aff[0]) * np.abs(np.diff(east)).min(), abs(aff[2]) * np.abs(np.diff(north)).min()))
         inp["coord_to_step_ratio"] = ratio
         cases.append(Case(dict(inp, part="main-without-reproduction"), obs, "c16_pg_norepro " + args, repro, kind))
         cases.append(Case(dict(inp, part="reproduction"), obs, "c16_pg_repro " + args, repro, kind + "-reproduction"))
@@ -393,7 +411,8 @@ def pg_cases(vd, rnd, nprng, proj, separable, method, antialias, argkind, kind, 
         cases.append(Case(dict(inp, part="main"), obs, term, repro, kind))
         if antialias:
             cases.append(Case(dict(inp, part="range"), obs, "c16_pg_range %s %s" % (orows(v), orows(ov)), repro, kind + "-range"))
-    if antialias and method != "nearest" and (shrink_stream or (separable and holes == 0 and argkind == "none")):
+    even = len(set(np.diff(east))) == 1 and len(set(np.diff(north))) == 1
+    if antialias and method != "nearest" and (shrink_stream or (separable and holes == 0 and argkind == "none" and even)):
         cases.append(Case(dict(inp, part="inside"), obs, "c16_pg_inside %s %s %s %s %s" % (dl(pe), dl(pn), dl(oe), dl(on), orows(ov)),
                           repro, kind + "-inside"))
     return cases
@@ -440,16 +459,35 @@ def generate(tier, seed):
         if c is not None:
             cases.append(c)
             k += 1
-    # (4) array form vs grid form
-    for i in range(24 if quick else 240):
-        pts = lattice_cloud(rnd, rnd.randint(3, 12))
+    # (4) array form vs grid form: the grid's OWN coordinate vectors (ascending, descending, uneven, both), non-square,
+    #     data hull off-centre (confined to one part of the grid, so mirrored / re-spaced nodes get a different mask),
+    #     also at large scale / offset
+    for i in range(40 if quick else 400):
         nx = rnd.randint(3, 8)
         ny = rnd.choice([m for m in range(2, 9) if m != nx])
-        e0, n0 = rnd.randint(-4, 8) / 4, rnd.randint(-4, 8) / 4
-        east = e0 + rnd.choice([0.5, 1.0, 1.25]) * np.arange(nx)
-        north = n0 + rnd.choice([0.5, 1.0, 0.75]) * np.arange(ny)
+        se = rnd.choice(AXIS_STYLES) if i % 4 else "ascending"
+        sn = rnd.choice(AXIS_STYLES) if i % 4 != 1 else "descending"
+        if i % 4 == 0:
+            sn = rnd.choice(AXIS_STYLES[1:])
+        east = styled_axis(rnd, rnd.randint(-4, 4) / 4, rnd.choice([0.5, 1.0, 1.25]), nx, se)
+        north = styled_axis(rnd, rnd.randint(-4, 4) / 4, rnd.choice([0.5, 1.0, 0.75]), ny, sn)
+        # cloud in a sub-box of the grid's bounding box that is not centred on it
+        w, e, s_, n_ = east.min(), east.max(), north.min(), north.max()
+        fx, fy = rnd.choice([(0.0, 0.6), (0.4, 1.0), (0.1, 0.7)]), rnd.choice([(0.0, 0.55), (0.45, 1.0), (0.2, 0.9)])
+        bx = (w + fx[0] * (e - w), w + fx[1] * (e - w))
+        by = (s_ + fy[0] * (n_ - s_), s_ + fy[1] * (n_ - s_))
+        while True:
+            m = rnd.randint(3, 12)
+            pts = [(round(rnd.uniform(*bx) * 8) / 8, round(rnd.uniform(*by) * 8) / 8) for _ in range(m)]
+            if len(set(pts)) >= 3 and nondegenerate(pts):
+                break
+        dxs, dys = np.array([p[0] for p in pts]), np.array([p[1] for p in pts])
+        if i % 5 == 4:       # exact dyadic/decimal rescaling of cloud and grid together
+            sx, ox = rnd.choice([(1000.0, 1e6), (2.0 ** -10, 0.0), (1.0, -3e6), (1e4, 2.0 ** 30)])
+            sy, oy = rnd.choice([(1000.0, -1e6), (1.0, 1e7), (2.0 ** 20, 0.0), (0.5, 5e5)])
+            dxs, east, dys, north = sx * dxs + ox, sx * east + ox, sy * dys + oy, sy * north + oy
         dims = rnd.choice([("northing", "easting"), ("lat", "lon"), ("y", "x")])
-        cases.append(mask_forms_case(vd, [p[0] for p in pts], [p[1] for p in pts], east, north, dims, "mask-forms"))
+        cases.append(mask_forms_case(vd, dxs, dys, east, north, dims, "mask-forms"))
     # (5) project_grid
     argkinds = ["none", "none", "shape", "spacing", "region", "region+shape", "region+spacing"]
     combos = [(m, aa) for m in ("linear", "nearest", "cubic") for aa in (False, True)]
